@@ -37,11 +37,19 @@ func drawC06(t *rapid.T) *dScenario {
 	k.MaxSteps = 4
 	k.FillerPct = 45
 	k.BigPodPct = 8
+	// profile: several empty nodes, and a pod lands on one of them while Emptiness waits to validate its command; only
+	// the emptiness clause is judged for those steps (it is stated for the nodes as they are when they are deleted)
+	lateBind := dpct(t, 25, "emptinessLateBindProfile")
+	if lateBind {
+		k.EmptyNodePct = 55
+		k.MidWaitPct = 80
+		k.MidWaitKinds = []string{"addPod"}
+	}
 	s := drawDisrupt(t, k)
-	// no third-party change while the controller waits to validate: a command's recorded placements are only a
-	// witness for the world they were computed in
+	// otherwise no third-party change while the controller waits to validate: a command's recorded placements are only
+	// a witness for the world they were computed in
 	for i := range s.Steps {
-		if s.Steps[i].Kind == "disrupt" {
+		if s.Steps[i].Kind == "disrupt" && !lateBind {
 			s.Steps[i].Mut = nil
 		}
 	}
@@ -89,6 +97,19 @@ func (r *dRun) judgeC06(rd *dRound, st *c06Stats) {
 	c := r.c
 	sn := rd.Snap
 	r.refreshBuilt()
+	midWait := rd.Step < len(r.s.Steps) && r.s.Steps[rd.Step].Kind == "disrupt" && r.s.Steps[rd.Step].Mut != nil
+	if midWait && rd.Method != "Emptiness" {
+		return
+	}
+	if midWait && r.s.Steps[rd.Step].Mut.Kind == "addPod" {
+		if bn := r.nodeAt(r.s.Steps[rd.Step].Mut.Target); bn != nil && bn.Node != nil {
+			for _, cn := range rd.Candidates {
+				if bn.NodeClaim != nil && cn == bn.NodeClaim.Name {
+					c.Class("emptiness_command_after_pod_landed_on_candidate")
+				}
+			}
+		}
+	}
 	for _, cmd := range rd.Cmds {
 		st.cmds++
 		where := rd.Method + ":"
